@@ -380,7 +380,7 @@ pub fn trace_slice(input: &[u8], cfg: &CfgHist) -> Trace {
             use std::io::Read;
             let before = r.buffer_position();
             let mut b = vec![0u8; n];
-            let got = read_up_to(&mut r.stream(), &mut b);
+            let got = read_stream(&mut r.stream(), &mut b);
             b.truncate(got);
             t.push(Entry { obs: Obs::Raw(b), before, after: r.buffer_position(), err_pos: r.error_position() });
         }
@@ -392,6 +392,26 @@ pub fn trace_slice(input: &[u8], cfg: &CfgHist) -> Trace {
         }
     }
     t
+}
+
+/// Raw read of up to `buf.len()` bytes through `Reader::stream()`: through `Read::read` for
+/// even lengths, through `BufRead::fill_buf` + `consume` for odd ones.
+pub fn read_stream<R: std::io::BufRead>(r: &mut R, buf: &mut [u8]) -> usize {
+    if buf.len() % 2 == 0 {
+        return read_up_to(r, buf);
+    }
+    let mut got = 0;
+    while got < buf.len() {
+        let avail = match r.fill_buf() {
+            Ok(a) if !a.is_empty() => a,
+            _ => break,
+        };
+        let k = avail.len().min(buf.len() - got);
+        buf[got..got + k].copy_from_slice(&avail[..k]);
+        r.consume(k);
+        got += k;
+    }
+    got
 }
 
 /// read until `buf` is full or the source is exhausted (errors end the read)
@@ -431,7 +451,7 @@ pub fn trace_buffered<'a>(src: ChunkedRead<'a>, cfg: &CfgHist) -> (Trace, Chunke
         if let Some(n) = cfg.raw_after(call as u32).filter(|_| !t.iter().any(|e| matches!(&e.obs, Obs::Err(x) if x.is_syntax()))) {
             let before = r.buffer_position();
             let mut b = vec![0u8; n];
-            let got = read_up_to(&mut r.stream(), &mut b);
+            let got = read_stream(&mut r.stream(), &mut b);
             b.truncate(got);
             t.push(Entry { obs: Obs::Raw(b), before, after: r.buffer_position(), err_pos: r.error_position() });
         }
@@ -478,13 +498,41 @@ pub fn trace_async<'a>(src: AsyncChunked<'a>, cfg: &CfgHist) -> Result<(Trace, A
             let before = r.buffer_position();
             let mut b = vec![0u8; n];
             // read_exact re-polls with a partially filled buffer when the source delivers pieces
-            let got = {
+            let got = if n % 2 == 0 {
                 let mut st = r.stream();
                 let (res, polls) = block_on(st.read_exact(&mut b), max_polls)?;
                 polls_total += polls;
                 match res {
                     Ok(k) => k,
                     Err(_) => usize::MAX,
+                }
+            } else {
+                // odd lengths go through AsyncBufRead::poll_fill_buf + consume
+                use tokio::io::AsyncBufReadExt;
+                let mut st = r.stream();
+                let bref = &mut b;
+                let fut = async move {
+                    let mut got = 0;
+                    while got < bref.len() {
+                        let k = match st.fill_buf().await {
+                            Ok(a) if !a.is_empty() => {
+                                let k = a.len().min(bref.len() - got);
+                                bref[got..got + k].copy_from_slice(&a[..k]);
+                                k
+                            }
+                            _ => break,
+                        };
+                        st.consume(k);
+                        got += k;
+                    }
+                    got
+                };
+                let (got, polls) = block_on(fut, max_polls)?;
+                polls_total += polls;
+                if got < n {
+                    usize::MAX
+                } else {
+                    got
                 }
             };
             if got == usize::MAX {
